@@ -13,7 +13,7 @@ for line in open(f"/verif/props/{prop.lower()}/findings.rules"):
     rules.append((re.compile(rx), what))
 new = []
 bad = []
-for f in json.load(open(dump))["findings"]:
+for f in (json.load(open(dump))["findings"] or []):
     for rx, what in rules:
         if rx.search(f["key"]):
             new.append({"property": prop, "key": f["key"], "status": "open", "what": what})
